@@ -9,10 +9,11 @@ _src_cache = {}
 
 def _src(repo, file):
     p = file if os.path.isabs(file) else os.path.join(repo, file)
-    if p not in _src_cache:
+    key = (p, os.stat(p).st_mtime_ns)
+    if key not in _src_cache:
         with open(p, 'rb') as f:
-            _src_cache[p] = f.read()
-    return _src_cache[p]
+            _src_cache[key] = f.read()
+    return _src_cache[key]
 
 
 def _literals(data, start, end):
